@@ -274,6 +274,15 @@ def regenData (env : Env) (i : Inst) (d dp : List Bytes) (missing : List Nat) (o
       addFragmentMetadata env i (setMagic (withPayload f pl) magicC) idx orig bs false
     else withPayload f pl
 
+/-- `fragment_exceeds_length(fragment, fragment_len)`: the (raw, host-order) header announces more
+    payload plus backend metadata than the `fragment_len` the caller passed can hold.  Callers have
+    checked `fragLen ≥ Hdr.size`. -/
+def fragExceedsLength (f : Bytes) (fragLen : Nat) : Bool :=
+  decide (fragLen - Hdr.size < fSize f + fBmSize f)
+
+/-- the test of the header-validation loop of decode / reconstruct. -/
+def gateBad (fragLen : Nat) (f : Bytes) : Bool := isInvalidHeader f || fragExceedsLength f fragLen
+
 /-- `liberasurecode_decode` for a live descriptor and non-NULL pointers. -/
 def decode (env : Env) (be : Backend) (i : Inst) (frags : List Bytes) (fragLen : Nat)
     (force : Bool) : R Bytes :=
@@ -281,7 +290,7 @@ def decode (env : Env) (be : Backend) (i : Inst) (frags : List Bytes) (fragLen :
   let m := i.m
   if frags.length < k then failRc EINSUFFFRAGS else
   if fragLen < Hdr.size then failRc EBADHEADER else
-  if frags.any isInvalidHeader then failRc EBADHEADER else
+  if frags.any (gateBad fragLen) then failRc EBADHEADER else
   -- forced metadata checks: only fragments that validate take part at all
   let frags := if force then frags.filter (fun f => !isInvalidFragment env be i f) else frags
   if force && frags.length < k then failRc EINSUFFFRAGS else
@@ -312,7 +321,7 @@ def reconstruct (env : Env) (be : Backend) (i : Inst) (frags : List Bytes) (frag
   if dest < 0 || dest ≥ ((k + m : Nat) : Int) then failRc EINVALIDPARAMS else
   let dest := dest.toNat
   if fragLen < Hdr.size then failRc EBADHEADER else
-  if frags.any isInvalidHeader then failRc EBADHEADER else
+  if frags.any (gateBad fragLen) then failRc EBADHEADER else
   match getFragmentPartition k m frags with
   | .error e => .error (.rc e)
   | .ok (d, p, missing) =>
